@@ -376,6 +376,13 @@ def oracle_C13(hi, ops, obs):
             if v['jailed'] and v['key'] in b['comet']:
                 out.append(Viol(hi, b['h'], 'jailed-in-set', f"op {v['op']} jailed but key {v['key']} has power {b['comet'][v['key']]}"))
         leaves = successful_leaves(ob, b)
+        # "stays out until it is unjailed": the jailed flag of a record is cleared by a successful MsgUnjail of its operator only
+        if prev['vals']:
+            unjailed_by_msg = set(int(m.args[0]) for (_, _, m) in leaves if m.kind == 'UNJAIL')
+            for v in b['vals'].values():
+                pv = prev['vals'].get(v['op'])
+                if pv is not None and pv['jailed'] and not v['jailed'] and v['op'] not in unjailed_by_msg:
+                    out.append(Viol(hi, b['h'], 'unjailed-without-unjail', f"op {v['op']} was jailed, is not any more, and sent no successful MsgUnjail"))
         lenient = any(m.kind == 'PARAMS' for (_, _, m) in leaves) or cap_binding(b) or (prev['vals'] and cap_binding(prev))
         touched = set()
         for (_, sg, m) in leaves:
